@@ -11,6 +11,11 @@ with `parseDot` and compared with the node array `A`:
   * exactly the edges `p → high(p)` solid and `p → low(p)` dotted, except — with zero-pruning — those into 0;
   * the graph read back evaluates like `A` on all valuations (n ≤ 12; sampled above), a missing edge meaning 0
     (only for arrays that are valid Bdds).
+Clauses follow the statement strictly. Outside it, i.e. compared with the model only (a difference is a plain DIS):
+a wrong number of names, invalid diagrams (`C20.writeinv`), labels that need escaping, how the text is cut into `write`
+calls (`C20.pieces`), byte-exact equality of the text, everything about `Err` outcomes of a sink (which error, what
+reached the sink), and the observation `hang`. An export into a sink that returns `Ok` is judged by the graph clauses
+on what the sink received.
 Labels that would need escaping (`"`, `\`, LF, CR) make the text unreadable for any `.dot` reader; the
 property is not claimed for them (they are compared with the model only, tag `unsafe-label`).
 -/
@@ -90,23 +95,31 @@ def isFault : Serial.Ev → Bool
   | .give 0 => true
   | _ => false
 
-/-- the first fault of the script is reached whatever pieces are written: the gives before it cannot cover `len` bytes -/
-def faultEarly (script : List Serial.Ev) (len : Nat) : Bool :=
-  let pre := script.takeWhile (fun e => !isFault e)
-  pre.length < script.length &&
-    (pre.foldl (fun a e => match e with | .give k => a + k | _ => a) 0) < len
-
 def hexOfBytes (bs : List UInt8) : String :=
   String.ofList ('x' :: bs.flatMap fun b => [hexDigit (b.toNat / 16), hexDigit (b.toNat % 16)])
 
 def dotVerdict (A : Arr) (names : List String) (pruned : Bool) (text : String) : Option String :=
   let safe := names.all safeName
   let claimed := names.length == numVars A && wellFormed A
-  if text == "panic" then (if claimed then some "outcome:panic" else none)
-  else if !safe then none
+  -- outside the statement (compared with the model only): a wrong number of names, an invalid diagram, labels that
+  -- need escaping, and the observation `hang`
+  if !safe || !claimed || text == "hang" then none
+  else if text == "panic" then some "outcome:panic"
   else match decText? 'x' text with
     | none => some "not-utf8"
     | some t => checkDot A names pruned t
+
+/-- the export into a sink: the statement says nothing about I/O errors, so `Err` outcomes (which error, what reached
+    the sink) are compared with the model only. When the call returns `Ok`, what is in the sink IS the export: if it is
+    not `to_dot_string`'s text, the graph clauses are evaluated on it (a truncated text fails them). A panic on a
+    sink without fault is no export at all. -/
+def sinkVerdict (A : Arr) (names : List String) (pruned : Bool) (text status got : String) (hasFault : Bool) :
+    Option String :=
+  (dotVerdict A names pruned text) <|>
+    (if text == "panic" || text == "hang" then none
+     else if status == "ok" && got != "=" then (dotVerdict A names pruned got).map ("sink:" ++ ·)
+     else if status == "panic" && !hasFault then (dotVerdict A names pruned "panic").map ("sink:" ++ ·)
+     else none)
 
 /-! ### big diagrams: digest of the model's text, counts reported by the harness's own reader -/
 
@@ -161,16 +174,7 @@ def handle (key : String) (ins obs : List String) : Verdict :=
         | .ok (false, out), _ => " err " ++ hexOfBytes out
         | _, _ => " panic ?")
       let len := (text.length - 1) / 2
-      -- independent of the model: Ok iff the budget covers the text, and then all of it arrived; otherwise Err and
-      -- exactly the first `budget` bytes arrived
-      let fail := (dotVerdict A names pruned text) <|>
-        (if text == "panic" then none
-         else if budget ≥ len then (if status == "ok" && got == "=" then none else some "budget-covers-text-but-not-ok")
-         else if status == "ok" then some "hard-error-swallowed"
-         else if status != "err" then some ("outcome:" ++ status)
-         else if got.length != 1 + 2 * budget || !((got.drop 1).toString.isPrefixOf (text.drop 1).toString) then
-           some "sink-not-the-first-budget-bytes"
-         else none)
+      let fail := sinkVerdict A names pruned text status got (budget < len)
       { agree := model == " ".intercalate [text, status, got],
         model := if model.length > 300 then (model.take 300).toString ++ "…" else model, fail,
         nontrivial := true,
@@ -184,7 +188,8 @@ def handle (key : String) (ins obs : List String) : Verdict :=
       let model := match dotStmts A names pruned with
         | .ok ss => let d := digestStmts ss; hex16 d.1 ++ " " ++ toString d.2
         | _ => "panic"
-      let fail := if !wellFormed A || numVars A != n then some "harness built an invalid diagram" else checkBig A pruned rest
+      if !wellFormed A || numVars A != n then Verdict.bad "harness built an invalid diagram" else
+      let fail := checkBig A pruned rest
       { agree := model == digest ++ " " ++ bytes, model, fail, nontrivial := true,
         tags := ["big", if pruned then "pruned" else "full", s!"nodes{Nat.log2 (A.size + 1)}"] }
     | _, _ => Verdict.bad "args"
@@ -212,15 +217,7 @@ def handle (key : String) (ins obs : List String) : Verdict :=
               (piecesOf (preamble A pruned ++ (namedPrefix A names).flatMap (nodeStmts A names pruned))).flatten))
         let agree := model == " ".intercalate [text, status, got]
         let hasFault := sc.any isFault
-        let fail := (dotVerdict A names pruned text) <|>
-          (if text == "panic" then none
-           else if status == "ok" then
-             (if got != "=" then some "sink-bytes-differ-from-to_dot_string"
-              else if faultEarly sc ((text.length - 1) / 2) then some "hard-error-swallowed" else none)
-           else if status == "err" then
-             (if !hasFault then some "spurious-error"
-              else if !((got.drop 1).toString.isPrefixOf (text.drop 1).toString) && got != "=" then some "sink-not-a-prefix" else none)
-           else some ("outcome:" ++ status))
+        let fail := sinkVerdict A names pruned text status got hasFault
         { agree, model := if model.length > 300 then (model.take 300).toString ++ "…" else model, fail,
           nontrivial := A.size > 2 && text != "panic",
           tags := ["write", status, if hasFault then "fault" else if sc.isEmpty then "whole" else "chunked",
@@ -250,8 +247,11 @@ def handle (key : String) (ins obs : List String) : Verdict :=
         | _ => "panic"
       let safe := names.all safeName
       let fail :=
-        if text != "panic" && written != "=" then some "write_as_dot_string-differs"
-        else dotVerdict A names pruned text
+        -- `written`: the same export into a `Vec<u8>`; if it is another text, the graph clauses decide on it too
+        (dotVerdict A names pruned text) <|>
+          (if written == "=" || text == "panic" then none
+           else if written == "panic" || written == "err" then (dotVerdict A names pruned "panic").map ("written:" ++ ·)
+           else (dotVerdict A names pruned written).map ("written:" ++ ·))
       { agree := model == text, model := if model.length > 300 then (model.take 300).toString ++ "…" else model, fail,
         nontrivial := A.size > 2 && text != "panic",
         tags := [if pruned then "pruned" else "full",
@@ -259,6 +259,7 @@ def handle (key : String) (ins obs : List String) : Verdict :=
           else if !isCanon A then "non-canonical" else if A.size ≤ 2 then "const" else "canonical",
           s!"nodes{Nat.log2 (A.size + 1)}"] }
     | _, _ => Verdict.bad "args"
+  | _, _, ["hang"] => { agree := false, model := "terminates", fail := none, nontrivial := false, tags := ["hang"] }
   | "C20.dot", _, ["badset"] => Verdict.bad "harness generated an invalid name set"
   | _, _, _ => Verdict.bad ("key " ++ key)
 
